@@ -480,6 +480,23 @@ def t3(ck: Check) -> None:
                 bad = logic.And(logic.Not(logic.B("none:solution_limit")), logic.Le("solution_limit", "0"))
                 if logic.satisfiable(logic.And(pc, bad)):
                     probs.append("the enumeration can still be reached with a limit <= 0")
+            # ... and only then: an early empty answer for a positive limit loses every solution (the pruning probe of
+            # expand_attractor_seeds asks with limit 1)
+            after_call = fm.cfg.reach_avoiding(cn, [])
+            for r in own_walk(f.node):
+                rv_ = fm.deref(r.value, fm.cfgn(r)) if isinstance(r, ast.Return) and isinstance(r.value, ast.Name) else getattr(r, "value", None)
+                if isinstance(r, ast.Return) and rv_ is not None and is_empty_list(rv_) and fm.cfgn(r).id not in after_call:
+                    tr2 = logic.Translator(lambda e: text(e), numeric={"solution_limit"})
+                    fs2 = []
+                    for test, pol, b in fm.facts(fm.cfgn(r)):
+                        ff = tr2.f(test)
+                        fs2.append(ff if pol else logic.Not(ff))
+                    try:
+                        if fs2 and logic.satisfiable(logic.And(logic.And(*fs2), logic.Lt("0", "solution_limit"), logic.Not(logic.B("none:solution_limit")))):
+                            probs.append(f"line {r.lineno}: the empty list is returned before the enumeration also for a positive limit "
+                                         f"(`{logic.show(logic.And(*fs2))[:60]}`)")
+                    except logic.TooBig:
+                        pass
         ck.ob("T3", fm, f.node, not probs, "; ".join(probs) if probs else "limit <= 0 returns the empty list before enumerating",
               key=f"{q} zero limit")
         # the async loop stops when the callback returns False
